@@ -272,7 +272,8 @@ class FileResponse(StreamResponse):
                 continue
 
             compressed_path = file_path.with_suffix(file_path.suffix + file_extension)
-            with suppress(OSError):
+            # ValueError: a path with an embedded null byte
+            with suppress(OSError, ValueError):
                 # Do not follow symlinks and ignore any non-regular files.
                 st = compressed_path.lstat()
                 if S_ISREG(st.st_mode):
@@ -299,9 +300,10 @@ class FileResponse(StreamResponse):
         except PermissionError:
             self.set_status(HTTPForbidden.status_code)
             return await super().prepare(request)
-        except OSError:
+        except (OSError, ValueError):
             # Most likely to be FileNotFoundError or OSError for circular
-            # symlinks in python >= 3.13, so respond with 404.
+            # symlinks in python >= 3.13, or ValueError for a path with an
+            # embedded null byte, so respond with 404.
             self.set_status(HTTPNotFound.status_code)
             return await super().prepare(request)
 
